@@ -29,7 +29,11 @@ def field(t, name):
     raise KeyError(name)
 
 
-HYPS = dict(seen=0, lits_nodup=0, sub_lits_nonempty=0)
+HYPS = dict(seen=0, lits_nodup=0, sub_lits_nonempty=0, listed_twice_without_empty_description=[])
+
+# a literal both without a description and with the empty one: Rust lists it twice (Props/Capstone.v, C01 hypotheses)
+WITNESS_TWICE = [b'cmd (x a | y a "") z;', b'cmd (x a | y a "");', b'cmd (x a "" | y a) z;', b'cmd a "" b;', b'cmd (a | b) "";',
+                 b'cmd --k=(a | b a "") --k=(a "" | c);', b'cmd (a "" || a) z;']
 
 
 def row_ids(dfa_sx):
@@ -37,7 +41,7 @@ def row_ids(dfa_sx):
     return [row[0] for row in field(dfa_sx, 'trans')[1:]]
 
 
-def oracles(st, script, command):
+def oracles(st, script, command, text=None):
     """-> text of the (oracles ...) argument, from the bash dump `st` of one grammar and the binary's script (or None)"""
     pops = []
     if st.get('REGEX', '').startswith('(ok '):
@@ -69,6 +73,9 @@ def oracles(st, script, command):
     HYPS['seen'] += 1
     if len(set(pairs(om))) == len(om) and all(len(set(pairs(e[1:]))) == len(e) - 1 for e in osub):
         HYPS['lits_nodup'] += 1
+    elif text is not None and b'""' not in text:
+        # CapstoneLits.compiled_orders_nodup: impossible when no description of the text is empty
+        HYPS['listed_twice_without_empty_description'].append(text.decode('latin-1')[:200])
     if all(str(x[0]) != '' for e in osub for x in e[1:]):
         HYPS['sub_lits_nonempty'] += 1
     return '(oracles (pops %s) (fuel %d) (mainlits %s) (sublits %s) (groups %s) (sig %s))' % (
@@ -99,6 +106,7 @@ def corpus(ctx, texts):
     out = list(texts[: (200 if quick else len(texts))])
     out += [t for _, t in c03.grammars(dict(sub, tier='quick'))][:: (20 if quick else 1)]
     out += [t for k, t in c06.cases(dict(sub, tier='quick')) if not k.startswith('probe')]
+    out += WITNESS_TWICE
     return list(dict.fromkeys(out))
 
 
@@ -176,7 +184,7 @@ def tie(ctx, res, texts, label='end_to_end_bash', binary_max=None):
         if st.get('CHECK', '').startswith('(ok '):
             command = str(sexp.parse(st['CHECK'])[1])
         try:
-            o = oracles(st, script, command)
+            o = oracles(st, script, command, t)
         except Exception as e:      # malformed dump: let the comparison below report it
             o = '(oracles (pops) (fuel %d) (mainlits) (sublits) (groups) (sig ""))' % FUEL
         reqs.append('compilebash %s %s' % (o, sexp.quote(t.decode('latin-1'))))
@@ -248,7 +256,10 @@ def tie(ctx, res, texts, label='end_to_end_bash', binary_max=None):
             res.violations.append(report.Violation('proof obligations of C04c (compile_bash: totality / embedding) no longer check',
                                                    dict(kind='proof-obligation', property='C04c', errors=extra['errors']), found_input=False))
         res.extra['theorems_C04c'] = extra['theorems']
-    res.extra['capstone_side_conditions_on_rust_oracles'] = dict(HYPS)
+    for w in HYPS['listed_twice_without_empty_description']:
+        res.violations.append(report.Violation('Rust lists a literal twice although no description of the text is empty '
+                                               '(CapstoneLits.compiled_orders_nodup proves the model cannot)', dict(kind='tie-compile-bash', grammar=w)))
+    res.extra['capstone_side_conditions_on_rust_oracles'] = dict(HYPS, listed_twice_without_empty_description=len(HYPS['listed_twice_without_empty_description']))
     res.extra[label] = dict(texts=len(texts), scripts_byte_identical=agree['script'], of_which_against_the_binary=agree['binary'], with_within_word_automata=with_words,
                             rejections_agree=agree['reject'], oracle_conflicts=agree['conflict'],
                             seconds=round(time.time() - t0, 1), harness_s=round(t_dump, 1), binary_s=round(t_bin, 1), model_s=round(t_model, 1))
